@@ -426,4 +426,49 @@ def _is_styled(e, style_attrs, style_locals) -> bool:
     return False
 
 
-RULES = [r1_tables, r2_gating, r3_inclusion, r4_apply, r5_style_last]
+def r6_gating_policy(a, tier):
+    import itertools as _it
+
+    from ..modelinterp import Hook, ModelInterp, Stub
+    rep = RuleReport(
+        'C20.R6',
+        'the colour policy, interpreted over {explicit override none / on / off} x {NO_COLOR set?} x {FORCE_COLOR set?} x {stdout a terminal?} x '
+        '{stderr a terminal?} x {policy for stdout / for stderr}: Color.enabled is the override if given, else off under NO_COLOR, else on '
+        'under FORCE_COLOR, else "the stream THIS policy is for is a terminal" - a stderr policy never looks at stdout (error messages '
+        'redirected to a file carry no escapes although the terminal shows colours)',
+        floor=96,
+    )
+    COLOR = 'tatsu.ztyle.style.Color'
+    cls = a.p.cls(COLOR)
+    en = cls.methods.get('enabled')
+    if en is None:
+        raise AnalysisError('Color.enabled not found')
+    from ..modelinterp import Bound
+    n_bad = 0
+    for force, no_color, force_color, out_tty, err_tty, for_stderr in _it.product((None, True, False), (False, True), (False, True), (False, True), (False, True), (False, True)):
+        envd = {}
+        if no_color:
+            envd['NO_COLOR'] = '1'
+        if force_color:
+            envd['FORCE_COLOR'] = '1'
+        me = Stub(COLOR, _force_enable=force, _check_stderr=for_stderr)
+        G = {'os': Hook(None, environ=Hook(None, get=Hook(lambda k, d=None, envd=envd: envd.get(k, d)))),
+             'sys': Hook(None, stdout=Hook(None, isatty=Hook(lambda out_tty=out_tty: out_tty)), stderr=Hook(None, isatty=Hook(lambda err_tty=err_tty: err_tty))),
+             'shutil': Hook(None, get_terminal_size=Hook(lambda: Hook(None, columns=80, lines=24)))}
+        try:
+            got = ModelInterp(a, G).call_bound(Bound(me, en), [], {})
+        except Unsupported as e:
+            raise AnalysisError(f'cannot interpret Color.enabled: {e}') from e
+        want = force if force is not None else (False if no_color else (True if force_color else (err_tty if for_stderr else out_tty)))
+        ok = bool(got) == want
+        rep.add({'override': force, 'NO_COLOR': no_color, 'FORCE_COLOR': force_color, 'stdout_tty': out_tty, 'stderr_tty': err_tty, 'policy_for': 'stderr' if for_stderr else 'stdout',
+                 'enabled': got, 'want': want, 'ok': ok})
+        if not ok and n_bad < 4:
+            n_bad += 1
+            rep.fail(en.qualname, f'policy:{force}:{no_color}:{force_color}:{out_tty}:{err_tty}:{for_stderr}', f'Color.enabled with override {force}, NO_COLOR {"set" if no_color else "unset"}, '
+                     f'FORCE_COLOR {"set" if force_color else "unset"}, stdout {"a terminal" if out_tty else "redirected"}, stderr {"a terminal" if err_tty else "redirected"}, policy for '
+                     f'{"stderr" if for_stderr else "stdout"} is {got}; the documented priority gives {want}', en.loc)
+    return rep
+
+
+RULES = [r1_tables, r2_gating, r3_inclusion, r4_apply, r5_style_last, r6_gating_policy]
